@@ -9,7 +9,7 @@ import core
 from core import Driver, rat
 from pool import err_kind, run_pool
 from props.lp_common import (CANDIDATE_SECONDS, LIMITS, RecCtx, enc_mat, enc_num, enc_point, enc_vec, gen_lp,
-                              lp_candidates, lp_strip, note_dropped, safe_run, shrink, write_min)
+                              lp_artdeg, lp_candidates, lp_strip, note_dropped, safe_run, shrink, write_min)
 
 AREAS = ["Lp"]
 LEVEL = "proof"
@@ -24,6 +24,8 @@ ASSUMPTIONS = [
     "the eps-run and the exact run of every explored input",
 ]
 RULE = ("structured LPs (random, bounded, degenerate vertex, phase-1/equality pairs, infeasible, unbounded; "
+        "degenerate phase-1 vertices pre-screened with the mirror so that >= 2 artificials are still basic after phase 1 "
+        "and are pivoted out by the clean-up loop (counters art_basic_after_phase1 / art_driven_out in the histogram); "
         "strips between planted opposite parallel rows with 2-3 variables (unbounded along / bounded / infeasible / "
         "equality pair, scaled); duplicated/parallel/zero rows, zero columns; integer and dyadic data; both senses; m,n <= 6 quick / "
         "<= 10 thorough; a share with tiny max_iter); non-trivial = phase 1 ran or >= 2 pivots in the mirror; "
@@ -83,6 +85,32 @@ def gen_strip_case(rng):
     return {"family": "strip", "c": c, "A": A, "b": b, "minimize": minimize, "opts": {}, "ipm": {}}
 
 
+def gen_artdeg_cases(ctx, want, tries):
+    """targeted family: LPs on which >= 2 artificial variables are still basic (at level zero) when phase 1 ends, so
+    that the clean-up loop of `_phase1` pivots several of them out.  Candidates come from `lp_artdeg`; they are
+    pre-screened with the mirror's coverage counter (the model is cheap) and those with counter >= 2 are kept."""
+    cands = []
+    for _ in range(tries):
+        c, A, b = lp_artdeg(ctx.rng)
+        cands.append({"family": "artdeg", "c": c, "A": A, "b": b, "minimize": ctx.rng.random() < 0.5,
+                      "opts": {}, "ipm": {"max_iter": 5}})
+    reqs = [["artscreen", rat(1e-10), DEFAULT_MAX_ITER,
+             [[enc_vec(k["c"]), enc_mat(k["A"]), enc_vec(k["b"]), k["minimize"]] for k in cands[i:i + 200]]]
+            for i in range(0, len(cands), 200)]
+    replies, dropped = safe_run(reqs, LIMITS[ctx.tier]["drv"])
+    note_dropped(ctx, dropped, "C03 artificial-basis pre-screen")
+    keep = []
+    for i, rp in enumerate(replies):
+        if rp is None:
+            continue
+        if rp and rp[0] == "error":
+            raise core.Infra(f"model rejected the pre-screen request: {rp}")
+        for k, (before, _driven) in zip(cands[i * 200:(i + 1) * 200], rp):
+            if before >= 2:
+                keep.append(k)
+    return keep[:want]
+
+
 def edge_cases():
     mk = lambda c, A, b, mn=True, **o: {"family": "edge", "c": c, "A": A, "b": b, "minimize": mn, "opts": o, "ipm": {}}
     # the DESIGN witness: solve_lp_interior raises OverflowError
@@ -97,6 +125,8 @@ def edge_cases():
     yield mk([-3, -2], [[1, 1], [1, 0], [0, 1]], [4, 2, 3])
     yield mk([1, 2], [[-1, 0], [0, -1], [1, 1]], [-1, -1, 1])  # infeasible after phase 1
     yield mk([-1, 0], [[1, -1], [-1, 1]], [1, -1])  # unbounded with phase 1
+    yield mk([3, -1, -3], [[-1, -1, 1], [-1, 1, -1], [-1, 0, 1], [2, 0, 0]], [-3, -3, 0, 6])  # two artificials
+    # stay basic at level zero after phase 1 and are pivoted out by the clean-up loop; optimum -3 at (3,3,3)
     yield mk([2, 2], [[2, -2], [-2, 2]], [1, 0], False)         # strip 0 <= 2x-2y <= 1, pushed along
     yield mk([0, 1], [[1, -1], [-1, 1]], [3, -1], False)        # strip 1 <= x-y <= 3, max y
     # Beale's cycling example (degenerate, needs Bland)
@@ -159,7 +189,10 @@ def judge(ctx, case, out, reply):
         return
     o = out[1]
     model, truth, lpc, ipc = reply
-    m_status, m_x, m_obj, m_iters, m_ph1, m_near, m_cert = model
+    m_status, m_x, m_obj, m_iters, m_ph1, m_near, m_cert, m_art, m_driven = model
+    if m_ph1:
+        ctx.count(f"art_basic_after_phase1:{min(m_art, 3)}{'+' if m_art >= 3 else ''}")
+        ctx.count(f"art_driven_out:{min(m_driven, 3)}{'+' if m_driven >= 3 else ''}")
     verdict, opt, t_ok = truth
     ctx.count("truth:" + verdict)
     ctx.count("family:" + case["family"])
@@ -329,6 +362,8 @@ def run(ctx, budget):
     cases = list(edge_cases()) + [c["case"] for c in core.load_corpus("C03")]
     n = (1400 if budget == 1 else 2000 * budget)   # quick tier trimmed: must stay <= 60 s on a loaded box
     cases += [gen_case(ctx.rng, big=(ctx.tier == "thorough" and i % 3 == 0)) for i in range(n)]
+    cases += gen_artdeg_cases(ctx, want=(700 if budget == 1 else 500 * budget),
+                              tries=(2000 if budget == 1 else 1400 * budget))
     # strips: a 1-2 % class of them makes a diverging interior-point run overflow; a few thousand cheap ones per run
     cases += [gen_strip_case(ctx.rng) for _ in range(3000 if budget == 1 else 2000 * budget)]
     k = LIMITS[ctx.tier]["slices"]
